@@ -1459,6 +1459,10 @@ def check_c07(model, rep, tier):
     r_load_via_add(model, rep)
     from .roundtrip import r_discinfo_lines
     r_discinfo_lines(model, rep)
+    # a section that is never read is never validated: the composite readers visit the children the writers write, under the
+    # same conditions (a layered document's base_product skipped on load lets any corruption inside it through)
+    from .schema import r_composite
+    r_composite(model, rep, "composeinfo.ComposeInfo", ["header", "compose", "release", "base_product", "variants"])
 
 
 @register("C18")
